@@ -1122,3 +1122,107 @@ Proof.
   - discriminate.
   - congruence.
 Qed.
+
+(* ------------------------------------------------------------------ handlers *)
+
+Lemma fresh_ok_parts s f : fresh_ok s f -> f <> "" /\ st_u2v s !! f = None.
+Proof. intros [V N]. split; auto. now apply valid_uuid_nonempty. Qed.
+
+Lemma inv_h_commit s x : RepoInv s -> RepoInv (fst (h_commit s x)).
+Proof.
+  intros I. unfold h_commit. destruct (node_gate s x false); try exact I.
+  destruct (locked_uuid s a) as [[|]| | |]; try exact I.
+  pose proof (inv_commit s a I). destruct (do_commit s a). exact H.
+Qed.
+
+Lemma inv_h_new_version s x a f : RepoInv s -> fresh_ok s f -> RepoInv (fst (h_new_version repaired s x a f)).
+Proof.
+  intros I Hf. unfold h_new_version. destruct (node_gate s x true); try exact I.
+  destruct (parse_assign a); try exact I.
+  apply inv_new_version; [exact I|discriminate|intros _; now apply fresh_ok_parts].
+Qed.
+
+Lemma inv_h_branch s x b a f : RepoInv s -> fresh_ok s f -> RepoInv (fst (h_branch repaired s x b a f)).
+Proof.
+  intros I Hf. unfold h_branch. destruct (node_gate s x true); try exact I.
+  destruct (parse_assign a); try exact I.
+  destruct (String.eqb b "" || String.eqb b "master") eqn:E; [exact I|].
+  apply orb_false_iff in E as [_ E]. apply eqb_false_ne in E.
+  apply inv_new_version; [exact I|exact E|intros _; now apply fresh_ok_parts].
+Qed.
+
+Lemma tag_branch_not_master t : "tag-" ++ t <> "master".
+Proof. simpl. discriminate. Qed.
+Lemma conflict_branch_not_master t : "conflict-" ++ t <> "master".
+Proof. simpl. discriminate. Qed.
+
+Lemma inv_h_tag s x t : RepoInv s -> RepoInv (fst (h_tag repaired s x t)).
+Proof.
+  intros I. unfold h_tag. destruct (node_gate s x true); try exact I.
+  pose proof (inv_new_version s a ("tag-" ++ t) (Some t) "" I (tag_branch_not_master t)) as H.
+  destruct (do_new_version repaired s a ("tag-" ++ t) (Some t) "") as [s1 r].
+  simpl in H. assert (I1 : RepoInv s1) by (apply H; discriminate).
+  destruct r; simpl; auto. now apply inv_commit.
+Qed.
+
+Lemma inv_h_merge s x mt ps f : RepoInv s -> fresh_ok s f -> RepoInv (fst (h_merge repaired s x mt ps f)).
+Proof.
+  intros I Hf. unfold h_merge. destruct (repo_gate s x); try exact I.
+  destruct (length ps <? 2)%nat; [exact I|].
+  destruct (match_all s ps); try exact I. destruct (negb mt); [exact I|].
+  destruct (fresh_ok_parts s f Hf). now apply inv_merge.
+Qed.
+
+Lemma inv_h_new_data s x t n : RepoInv s -> RepoInv (fst (h_new_data s x t n)).
+Proof.
+  intros I. unfold h_new_data. destruct (repo_gate s x); try exact I.
+  destruct (locked_uuid s a) as [[|]| | |]; try exact I.
+  destruct (negb t); [exact I|]. now apply inv_new_data.
+Qed.
+
+(* ---- error answers ---- *)
+
+Lemma frame_bump s : frame (bump_instance_id s) = frame s.
+Proof. reflexivity. Qed.
+
+Lemma h_commit_frame s x : is_done (snd (h_commit s x)) = false -> fst (h_commit s x) = s.
+Proof.
+  unfold h_commit. destruct (node_gate s x false); auto.
+  destruct (locked_uuid s a) as [[|]| | |]; auto.
+  pose proof (commit_frame s a) as F. destruct (do_commit s a) as [s1 r]. simpl in *.
+  destruct r as [[]| | |]; simpl; try discriminate; intros _; apply F; discriminate.
+Qed.
+
+Lemma h_new_version_frame s x a f : is_done (snd (h_new_version repaired s x a f)) = false ->
+  fst (h_new_version repaired s x a f) = s.
+Proof.
+  unfold h_new_version. destruct (node_gate s x true); auto.
+  destruct (parse_assign a); auto. apply new_version_frame.
+Qed.
+
+Lemma h_branch_frame s x b a f : is_done (snd (h_branch repaired s x b a f)) = false ->
+  fst (h_branch repaired s x b a f) = s.
+Proof.
+  unfold h_branch. destruct (node_gate s x true); auto.
+  destruct (parse_assign a); auto. destruct (String.eqb b "" || String.eqb b "master"); auto.
+  apply new_version_frame.
+Qed.
+
+Lemma h_tag_frame s x t : is_done (snd (h_tag repaired s x t)) = false -> fst (h_tag repaired s x t) = s.
+Proof.
+  unfold h_tag. destruct (node_gate s x true); auto.
+  pose proof (new_version_frame repaired s a ("tag-" ++ t) (Some t) "") as F.
+  destruct (do_new_version repaired s a ("tag-" ++ t) (Some t) "") as [s1 r]. simpl in *.
+  destruct r; simpl; try discriminate; intros _; now apply F.
+Qed.
+
+Lemma h_merge_frame s x mt ps f : is_done (snd (h_merge repaired s x mt ps f)) = false ->
+  fst (h_merge repaired s x mt ps f) = s.
+Proof.
+  unfold h_merge. destruct (repo_gate s x); auto.
+  destruct (length ps <? 2)%nat; auto.
+  destruct (match_all s ps); auto. destruct (negb mt); auto. apply merge_frame.
+Qed.
+
+Lemma recast_not_done {A B} (o : outcome A) : is_done (@recast A B o) = false.
+Proof. destruct o; reflexivity. Qed.
